@@ -3,7 +3,7 @@ from propslib import fn_scope
 
 PROP = dict(
     extract=["editor"],
-    lean_targets=["Chewing.Props.C06", "Chewing.Props.C06Layouts", "Chewing.Props.EditorTie"],
+    lean_targets=["Chewing.Props.C06", "Chewing.Props.C06Layouts", "Chewing.Props.C06EditorTie"],
     runs=[dict(bin="editor"), dict(bin="editor", args=["--script", "c06"], tag="editor-c06-sweep"),
           # closed-world BFS of the real editor (bfs.rs): one record per (reachable state, operation); the configurations that
           # CLOSED are listed in the evidence (coverage.exhaustive_closed_worlds) - for those the tie is exhaustive (EditorTie.lean)
